@@ -20,6 +20,9 @@ type Gen struct {
 	PlainKeys bool
 	// Plain restricts all leaves to benign values.
 	Plain bool
+	// TextBytes restricts bytes / fixed leaves to valid UTF-8 text (the JSON formats cannot carry anything else:
+	// known finding KF-C01-json-non-utf8); used by checks whose subject is something other than the codec.
+	TextBytes bool
 }
 
 var HostileStrings = []string{
@@ -83,6 +86,16 @@ func (g *Gen) Key(t *rapid.T, label string) string {
 }
 
 func (g *Gen) RawBytes(t *rapid.T, label string, n int) []byte {
+	if g.TextBytes && !g.Plain {
+		if n >= 0 {
+			b := make([]byte, n)
+			for i := range b {
+				b[i] = rapid.SampledFrom([]byte("ab(),:'%&=+ /?#\"\\\x00\x7f01")).Draw(t, label+"_tb")
+			}
+			return b
+		}
+		return []byte(g.String(t, label+"_ts"))
+	}
 	if g.Plain {
 		b := make([]byte, 0)
 		if n >= 0 {
